@@ -80,9 +80,20 @@ def mkCfg (sync : Bool) (qs : List Q) : Cfg Nat :=
       { major := q.major, minor := q.minor, connVals := q.conn, pieces := [[2 * i], [2 * i + 1]] },
     sync }
 
-/-- the server side of one connection under the schedule of the K line, then drained -/
+/-- the server side of one connection: `Pipeline.run` on the schedule of the K line followed by
+    `completion`; the state is used only if the three checks of `Pipeline.c10_run_checked` hold for this
+    very run (otherwise the driver answers `model-unchecked`, which never matches the implementation) -/
+def serve? (sync : Bool) (sched : List Act) (qs : List Q) : Option (St Nat) :=
+  let cfg := mkCfg sync qs
+  let acts := sched ++ completion (4 * qs.length + 8)
+  let s := run cfg init acts
+  if noExt acts && doneB cfg s && !s.dropped then some s else none
+
+/-- a state nothing matches: used when the checks fail -/
+def unchecked : St Nat := { (init : St Nat) with wire := [1000000007] }
+
 def serve (sync : Bool) (sched : List Act) (qs : List Q) : St Nat :=
-  drain (mkCfg sync qs) (6 * qs.length + 8) init sched
+  (serve? sync sched qs).getD unchecked
 
 /-- the schedule of the known finding "close drops the backlog": from response `i` on the kernel stops
     taking bytes (the tail part of response i and everything behind it is queued); the job of the first
@@ -109,7 +120,7 @@ def splitAtClose (qs : List Q) : List (List Q) :=
       else go rest (q :: cur)
   go qs []
 
-def outcome (sync : Bool) (h : H) : List String :=
+def outcome0 (sync : Bool) (h : H) : List String :=
   let qs := h.qs.toList
   match h.kind with
   | "raw" =>
@@ -170,6 +181,20 @@ def outcome (sync : Bool) (h : H) : List String :=
         if answeredIn s i && !h.lost.contains q.rid then answeredLine h.cid q "x" cb
         else s!"R {q.rid} none cb={cb}"
   | _ => qs.map fun _ => "bad-op"
+
+/-- every server run behind the lines must have passed the checks of `c10_run_checked` -/
+def allChecked (sync : Bool) (h : H) : Bool :=
+  let qs := h.qs.toList
+  match h.kind with
+  | "raw" => h.cut.isSome || (serve? sync h.sched qs).isSome
+  | "nbc" => (serve? sync h.sched (qs.drop (min h.dialFail qs.length))).isSome
+  | "nbx" => (serve? sync h.sched (qs.drop (min h.failAt qs.length + 1))).isSome
+  | "std" | "nbcli" =>
+    (splitAtClose (qs.drop (min h.dialFail qs.length))).all fun seg => (serve? sync h.sched seg).isSome
+  | _ => true
+
+def outcome (sync : Bool) (h : H) : List String :=
+  if allChecked sync h then outcome0 sync h else h.qs.toList.map fun _ => "model-unchecked"
 
 def parseVer (v : String) : Option (Nat × Nat) :=
   match v with
